@@ -22,7 +22,7 @@ HunkC(c) == IF c = "minus3" THEN "minus" ELSE IF c = "plus3" THEN "plus" ELSE c
 SecTemplateLen(kd) ==
   CASE kd = "mod" -> 3 [] kd = "add" -> 4 [] kd = "addempty" -> 2 [] kd = "del" -> 4 [] kd = "rename" -> 3
     [] kd = "renmod" -> 6 [] kd = "copy" -> 3 [] kd = "modeonly" -> 2 [] kd = "modemod" -> 5 [] kd = "bin" -> 2 [] kd = "modebin" -> 4 [] kd = "renmode" -> 5
-    [] kd = "binadd" -> 3 [] kd = "cc" -> 3 [] kd = "subshort" -> 6 [] OTHER -> 0
+    [] kd = "binadd" -> 3 [] kd = "binx" -> 2 [] kd = "cc" -> 3 [] kd = "subshort" -> 6 [] OTHER -> 0
 SecHasHunks(kd) == kd \in {"mod", "add", "del", "renmod", "modemod", "cc"}
 
 \* What the one file header of a section must say: <<old, new, label, mode, binary>>
@@ -41,6 +41,7 @@ WantHeader(l) ==
     [] kd \in {"modeonly", "modemod"} -> <<f, f, "modified", 2, FALSE>>
     [] kd = "bin"                  -> <<f, f, "modified", 0, TRUE>>
     [] kd = "binadd"               -> <<0, f, "added", 0, TRUE>>
+    [] kd = "binx"                 -> <<f, g, "comparing", 0, TRUE>>     \* (not demanded: see RowsOf)
 
 \* diff -u / diff -ru sections: both paths are shown ("comparing" form)
 RECURSIVE FirstOf(_, _, _)
@@ -114,6 +115,10 @@ RowsOf(h, k) ==
     [] c \in {"m_ours", "m_anc", "m_theirs", "cin"} -> << >>
     [] c = "commit" -> << Row("commit", k, <<>>) >>
     \* (a section that is cut off before it is complete may or may not get its header)
+    \* two unrelated binary files compared (--no-index): the "Binary files a/x and b/y differ" line says it all; it
+    \* must be shown, a header may be
+    [] IsStart(h[k]) /\ h[k].kd = "binx" -> << Row("fileHdrOpt", k, <<>>) >>
+    [] c = "binary" /\ SecStart(h, k) > 0 /\ h[SecStart(h, k)].kd = "binx" -> << Row("raw", k, <<>>) >>
     [] IsStart(h[k]) -> IF SecComplete(h, k) THEN << Row("fileHdr", k, WantHeaderAt(h, k)) >>
                         ELSE << Row("fileHdrOpt", k, <<>>) >>
     [] c = "hh"     -> IF HunkShown(h, k) THEN << Row("hunkHdr", k, <<>>) >> ELSE << >>
